@@ -27,7 +27,7 @@ def g_docdoc(s):
                 a = model.g_docarg(s)
                 extra = s.int(4)
                 for _ in range(extra):
-                    a["lines"].insert(s.int(len(a["lines"]) + 1), model.g_indent(s) + s.choice(model.DOC_LINES).replace("OTHER", "```" if a["delim"] == '"""' else '"""')
+                    a["lines"].insert(s.int(len(a["lines"]) + 1), model.g_indent(s) + s.choice(model.DOC_LINES).replace("OTHERESC", "".join("\\" + c for c in ("```" if a["delim"] == '"""' else '"""'))).replace("OTHER", "```" if a["delim"] == '"""' else '"""')
                                       .replace("ESC", "".join("\\" + c for c in a["delim"])).replace("DELIM", "x" + a["delim"]))
                 stp["arg"] = a
             out.append(stp)
